@@ -15,6 +15,9 @@
  *                           white space
  *  C07.sort.flags_domain    decode_flags: only the four SQFS_BLK_* bits a
  *                           sort file may set
+ *  C07.sort.flag_bit        (cases kw0..kw5: the concrete line
+ *                           "[<keyword>] f") exactly that keyword's bit /
+ *                           glob mode is set and the line becomes "f"
  */
 #include "verif.h"
 #include "bin/gensquashfs/src/sort_by_file.c"
@@ -27,7 +30,15 @@
 #define PART 0
 #endif
 
+#ifdef KW
+/* decode_flags on the concrete line "[<keyword KW>] f" */
+static const char *const g_kws[6] = { "glob_no_path", "glob", "dont_fragment",
+	"dont_compress", "dont_deduplicate", "nosparse" };
+#undef LEN
+#define LEN 24
+#endif
 static char g_line[LEN + 2];
+static size_t g_kwlen;
 
 int parse_int(const char *in, size_t len, size_t *diff,
 	      sqfs_s64 vmin, sqfs_s64 vmax, sqfs_s64 *out)
@@ -73,6 +84,19 @@ int split_line(char *line, size_t len, const char *sep, split_line_t **out)
 	VERIF_ASSERT(VERIF_SAME_OBJECT(line, g_line) && off + len <= LEN &&
 		     sep[0] == ',' && sep[1] == '\0', "C07.sort.split_pre");
 	VERIF_ASSUME(off + len <= LEN);
+#ifdef KW
+	/* the line is concrete: exactly what split_line yields for it - the
+	 * one token between '[' and ']', terminated over the ']' */
+	VERIF_ASSERT(off == 1 && len == g_kwlen, "C07.sort.split_pre");
+	b = malloc(sizeof(*b));
+	if (b == NULL)
+		return SPLIT_LINE_ALLOC;
+	b->s.count = 1;
+	b->s.args[0] = line;
+	line[len] = '\0';
+	*out = &b->s;
+	return SPLIT_LINE_OK;
+#endif
 	if (verif_nd_bool("split.fail"))
 		return verif_nd_bool("split.esc") ? SPLIT_LINE_ESCAPE :
 			SPLIT_LINE_UNMATCHED_QUOTE;
@@ -112,8 +136,18 @@ void harness(void)
 	int flags = 0, ret;
 	size_t i;
 
+#ifdef KW
+	memset(g_line, 0, sizeof(g_line));
+	g_kwlen = strlen(g_kws[KW]);
+	g_line[0] = '[';
+	memcpy(g_line + 1, g_kws[KW], g_kwlen);
+	g_line[1 + g_kwlen] = ']';
+	g_line[2 + g_kwlen] = ' ';
+	g_line[3 + g_kwlen] = 'f';
+#else
 	verif_nd_bytes(g_line, LEN, "line");
 	g_line[LEN] = '\0';
+#endif
 	g_line[LEN + 1] = 0x5a;
 
 #if PART == 0
@@ -133,6 +167,19 @@ void harness(void)
 				SQFS_BLK_IGNORE_SPARSE)) == 0,
 		     "C07.sort.flags_domain");
 	VERIF_ASSERT(do_glob || !path_glob, "C07.sort.flags_domain");
+#ifdef KW
+	if (ret == 0) {
+		int want = KW == 2 ? SQFS_BLK_DONT_FRAGMENT :
+			KW == 3 ? SQFS_BLK_DONT_COMPRESS :
+			KW == 4 ? SQFS_BLK_DONT_DEDUPLICATE :
+			KW == 5 ? SQFS_BLK_IGNORE_SPARSE : 0;
+
+		VERIF_ASSERT(flags == want && do_glob == (KW <= 1) &&
+			     path_glob == (KW == 1), "C07.sort.flag_bit");
+		VERIF_ASSERT(g_line[0] == 'f' && g_line[1] == '\0',
+			     "C07.sort.flag_bit");
+	}
+#endif
 #endif
 	VERIF_ASSERT(ret == 0 || ret == -1, "C07.sort.status_domain");
 	for (i = 0; i <= LEN; ++i) {
@@ -142,7 +189,7 @@ void harness(void)
 	VERIF_ASSERT(nul && g_line[LEN + 1] == 0x5a, "C07.sort.in_place");
 	VERIF_COVER(ret == 0);
 	VERIF_COVER(ret == -1);
-#if PART == 2 && LEN >= 4
+#if PART == 2 && LEN >= 4 && !defined(KW)
 	VERIF_COVER(ret == 0 && g_line[0] != '[' && LEN > 3 &&
 		    g_line[1] == '\0');
 #endif
